@@ -590,6 +590,24 @@ class Interp:
     s_Nonlocal = s_Pass
 
     def _refine(self, test, S, sc):
+        # boolean structure is handled here, clients refine atoms
+        if isinstance(test, ast.BoolOp):
+            if isinstance(test.op, ast.And):
+                T, F = set(S), set()
+                for v in test.values:
+                    t, f = self._refine(v, T, sc)
+                    F |= f
+                    T = t
+                return T, F
+            T, F = set(), set(S)
+            for v in test.values:
+                t, f = self._refine(v, F, sc)
+                T |= t
+                F = f
+            return T, F
+        if isinstance(test, ast.UnaryOp) and isinstance(test.op, ast.Not):
+            t, f = self._refine(test.operand, S, sc)
+            return f, t
         ctx = Ctx(self, sc)
         T, F = set(), set()
         for s in S:
